@@ -6,6 +6,8 @@ package messageevent
 //
 //	Append       DB.ForHashSlot(hs).AppendMessageEvent              (Shard path)
 //	AppendBatch  DB.NewWriteBatch + AppendMessageEvent x2 + Commit  (the Slot FSM path)
+//	Stage        DB.NewWriteBatch + AppendMessageEvent; the batch stays open over the next calls
+//	Commit       WriteBatch.Commit of the open batch (ok, or conflict = ErrStaleMeta)
 //
 // The projection is ListMessageEventStates of every message of the case. Every case
 // uses fresh channel ids / client message numbers, so all rows start absent; the two
@@ -37,9 +39,20 @@ type meSUT struct {
 	db    *metadb.DB
 	n     int
 	clock int64
+	wb    *metadb.WriteBatch // the open write batch of Stage .. Commit
 }
 
-func (s *meSUT) begin(n int) { s.n = n }
+func (s *meSUT) begin(n int) {
+	s.n = n
+	s.dropBatch()
+}
+
+func (s *meSUT) dropBatch() {
+	if s.wb != nil {
+		_ = s.wb.Close()
+		s.wb = nil
+	}
+}
 
 func (s *meSUT) channel(m string) string {
 	if s.n%2 == 0 {
@@ -56,7 +69,7 @@ func (s *meSUT) slot(m string) uint16 {
 func (s *meSUT) msgNo(m string) string { return fmt.Sprintf("cmn-%d-%s", s.n, m) }
 
 // payload renders the abstract payload of an event as the JSON the reducer decodes.
-func payload(typ, p string, r int64) []byte {
+func payload(typ, p string, r int64, nul bool, variant int64) []byte {
 	snap := func() map[string]any { return map[string]any{"kind": "text", "text": p} }
 	var v map[string]any
 	switch typ {
@@ -73,10 +86,17 @@ func payload(typ, p string, r int64) []byte {
 	case "cancel":
 		v = map[string]any{}
 	}
-	if (typ == "close" || typ == "error" || typ == "cancel" || typ == "finish") && p != "" {
+	terminal := typ == "close" || typ == "error" || typ == "cancel" || typ == "finish"
+	if terminal && p != "" {
 		v["snapshot"] = snap()
 	}
+	if terminal && p == "" && nul {
+		v["snapshot"] = nil // an optional field marshalled without omitempty
+	}
 	raw, _ := json.Marshal(v)
+	if terminal && p == "" && nul && variant%2 == 0 {
+		raw = []byte(strings.Replace(string(raw), `"snapshot":null`, `"snapshot" :  null `, 1))
+	}
 	return raw
 }
 
@@ -123,7 +143,7 @@ func (s *meSUT) event(m string, e map[string]any) metadb.MessageEventAppend {
 		ChannelID: s.channel(m), ChannelType: chanType, ClientMsgNo: s.msgNo(m),
 		EventID: kit.Str(e, "id"), EventKey: key, EventType: "stream." + typ,
 		Visibility: metadb.VisibilityPublic, OccurredAt: 1000 + s.clock, UpdatedAt: 2000 + s.clock,
-		Payload: payload(typ, kit.Str(e, "p"), kit.Int(e, "r")),
+		Payload: payload(typ, kit.Str(e, "p"), kit.Int(e, "r"), kit.Bool(e, "nul"), s.clock/2),
 	}
 }
 
@@ -172,6 +192,27 @@ func (s *meSUT) apply(ev map[string]any) (map[string]any, error) {
 			return nil, classify("WriteBatch.Commit", err)
 		}
 		return map[string]any{"rs": rs}, nil
+	case "Stage":
+		s.dropBatch()
+		s.wb = s.db.NewWriteBatch()
+		r, err := s.wb.AppendMessageEvent(s.slot(m), s.event(m, kit.Map(ev, "e")))
+		if err != nil {
+			return nil, classify("WriteBatch.AppendMessageEvent", err)
+		}
+		return reply(r), nil
+	case "Commit":
+		if s.wb == nil {
+			return nil, fmt.Errorf("Commit without an open batch")
+		}
+		err := s.wb.Commit()
+		s.dropBatch()
+		if errors.Is(err, metadb.ErrStaleMeta) {
+			return map[string]any{"ok": false}, nil
+		}
+		if err != nil {
+			return nil, fmt.Errorf("WriteBatch.Commit: %w", err)
+		}
+		return map[string]any{"ok": true}, nil
 	}
 	return nil, fmt.Errorf("unknown action %q", kit.Str(ev, "a"))
 }
@@ -323,7 +364,48 @@ func TestVerifMessageEvent(t *testing.T) {
 	toks := []string{"a", "b", "cc", "d"}
 	snaps := []string{"S", "TT", "U"}
 	traces := env.Pick(120, 1500)
-	for tr := 0; tr < traces; tr++ {
+	mkE := func(id, key, typ, p string, r int, nul bool) map[string]any {
+		return map[string]any{"id": id, "key": key, "type": typ, "p": p, "r": r, "nul": nul}
+	}
+	// Scripted traces: a write batch that stays open while other appends commit. The lane
+	// row the event was staged against is unchanged in A, B and E; only the per-message
+	// cursor (A, B, E) or the applied-event row (D) moved; C touches another message.
+	scripts := [][]map[string]any{
+		{ // A
+			kit.Ev("Append", "m", "m1", "e", mkE("e1", "main", "delta", "a", 0, false)),
+			kit.Ev("Stage", "m", "m1", "e", mkE("e2", "aux", "delta", "b", 0, false)),
+			kit.Ev("Append", "m", "m1", "e", mkE("e3", "main", "close", "", 2, false)),
+			kit.Ev("Commit", "m", "m1"),
+			kit.Ev("Append", "m", "m1", "e", mkE("e4", "aux", "delta", "d", 0, false)),
+		},
+		{ // B
+			kit.Ev("Stage", "m", "m2", "e", mkE("e1", "main", "delta", "a", 0, false)),
+			kit.Ev("Append", "m", "m2", "e", mkE("e2", "aux", "delta", "b", 0, false)),
+			kit.Ev("Commit", "m", "m2"),
+			kit.Ev("Append", "m", "m2", "e", mkE("e3", "main", "finish", "", 1, true)),
+		},
+		{ // C
+			kit.Ev("Stage", "m", "m1", "e", mkE("e1", "main", "delta", "a", 0, false)),
+			kit.Ev("Append", "m", "m2", "e", mkE("e1", "main", "delta", "b", 0, false)),
+			kit.Ev("Commit", "m", "m1"),
+			kit.Ev("Append", "m", "m1", "e", mkE("e2", "main", "close", "", 0, true)),
+		},
+		{ // D
+			kit.Ev("Append", "m", "m1", "e", mkE("e1", "main", "delta", "a", 0, false)),
+			kit.Ev("Stage", "m", "m1", "e", mkE("e2", "main", "delta", "b", 0, false)),
+			kit.Ev("Append", "m", "m1", "e", mkE("e2", "aux", "delta", "cc", 0, false)),
+			kit.Ev("Commit", "m", "m1"),
+			kit.Ev("Append", "m", "m1", "e", mkE("e2", "main", "delta", "b", 0, false)),
+		},
+		{ // E
+			kit.Ev("Append", "m", "m1", "e", mkE("e1", "aux", "delta", "a", 0, false)),
+			kit.Ev("Stage", "m", "m1", "e", mkE("e2", "main", "finish", "", 1, false)),
+			kit.Ev("Append", "m", "m1", "e", mkE("e3", "aux", "error", "", 2, true)),
+			kit.Ev("Commit", "m", "m1"),
+			kit.Ev("Append", "m", "m1", "e", mkE("e4", "main", "finish", "", 1, false)),
+		},
+	}
+	for tr := 0; tr < traces+len(scripts); tr++ {
 		caseNo++
 		sut.begin(caseNo)
 		proj, bad, err := sut.proj()
@@ -337,15 +419,18 @@ func TestVerifMessageEvent(t *testing.T) {
 		var hist []map[string]any
 		drawEvent := func() map[string]any {
 			typ := types[rng.Intn(len(types))]
-			e := map[string]any{"id": pool[rng.Intn(len(pool))], "key": laneKeys[rng.Intn(len(laneKeys))], "type": typ, "p": "", "r": 0}
+			e := mkE(pool[rng.Intn(len(pool))], laneKeys[rng.Intn(len(laneKeys))], typ, "", 0, false)
 			switch typ {
 			case "delta":
 				e["p"] = toks[rng.Intn(len(toks))]
 			case "snapshot":
 				e["p"] = snaps[rng.Intn(len(snaps))]
 			case "close", "error", "cancel", "finish":
-				if rng.Intn(3) == 0 {
+				switch rng.Intn(4) {
+				case 0:
 					e["p"] = snaps[rng.Intn(len(snaps))]
+				case 1:
+					e["nul"] = true
 				}
 				e["r"] = rng.Intn(4)
 				if typ == "finish" {
@@ -358,10 +443,33 @@ func TestVerifMessageEvent(t *testing.T) {
 			return e
 		}
 		steps := 8 + rng.Intn(25)
+		if tr < len(scripts) {
+			steps = len(scripts[tr])
+		}
+		stagedM, stagedKey := "", "" // message and lane of the open write batch
 		for i := 0; i < steps; i++ {
 			m := msgNames[rng.Intn(len(msgNames))]
 			var ev map[string]any
-			if rng.Intn(4) == 0 {
+			switch {
+			case tr < len(scripts):
+				ev = scripts[tr][i]
+			case stagedM != "" && (rng.Intn(3) == 0 || i == steps-1):
+				ev = kit.Ev("Commit", "m", stagedM)
+			case stagedM != "" && rng.Intn(2) == 0:
+				// aimed: another lane of the message the open batch was staged for
+				e := drawEvent()
+				if kit.Str(e, "type") == "finish" {
+					e["type"], e["p"], e["nul"] = "delta", "a", false
+				}
+				if stagedKey == "main" {
+					e["key"] = "aux"
+				} else {
+					e["key"] = "main"
+				}
+				ev = kit.Ev("Append", "m", stagedM, "e", e)
+			case stagedM == "" && rng.Intn(5) == 0 && i < steps-1:
+				ev = kit.Ev("Stage", "m", m, "e", drawEvent())
+			case rng.Intn(4) == 0:
 				e1, e2 := drawEvent(), drawEvent()
 				switch rng.Intn(3) {
 				case 0:
@@ -372,8 +480,14 @@ func TestVerifMessageEvent(t *testing.T) {
 					}
 				}
 				ev = kit.Ev("AppendBatch", "m", m, "es", []any{e1, e2})
-			} else {
+			default:
 				ev = kit.Ev("Append", "m", m, "e", drawEvent())
+			}
+			switch kit.Str(ev, "a") {
+			case "Stage":
+				stagedM, stagedKey = kit.Str(ev, "m"), kit.Str(kit.Map(ev, "e"), "key")
+			case "Commit":
+				stagedM, stagedKey = "", ""
 			}
 			res, err := sut.apply(ev)
 			var ref refused
@@ -397,14 +511,44 @@ func TestVerifMessageEvent(t *testing.T) {
 				rep.Violate("C40", "state", fmt.Sprintf("after %s: %s", kit.JSON(ev), bad), map[string]any{"events": hist})
 				break
 			}
+			// straight from the property text: the durable event sequence of a message only
+			// increases, so no two lanes of a message hold the same sequence
+			if dup := dupSeq(proj); dup != "" {
+				rep.Violate("C40", "sequence", fmt.Sprintf("after %s: %s", kit.JSON(ev), dup), map[string]any{"events": hist, "stored": proj})
+				break
+			}
 			rec.Step(ev, proj)
 			rep.Cover(kit.Str(ev, "a"))
+			if kit.Str(ev, "a") == "Commit" {
+				rep.Cover(fmt.Sprintf("commit:ok=%v", kit.Bool(res, "ok")))
+			}
 			for _, x := range append(kit.List(ev, "es"), ev["e"]) {
 				if e, ok := x.(map[string]any); ok {
 					rep.Cover("type:" + strings.ToLower(kit.Str(e, "type")))
 				}
 			}
 		}
+		sut.dropBatch()
 	}
 	finish()
+}
+
+// dupSeq reports two stored lanes of one message that hold the same event sequence.
+func dupSeq(proj map[string]any) string {
+	for _, m := range msgNames {
+		lanes := kit.Map(kit.Map(proj, m), "lanes")
+		seen := map[string]string{}
+		for _, k := range allKeys {
+			row := kit.Map(lanes, k)
+			if !kit.Bool(row, "ex") {
+				continue
+			}
+			seq := fmt.Sprint(row["seq"])
+			if other, dup := seen[seq]; dup {
+				return fmt.Sprintf("message %s: lanes %s and %s both hold msg_event_seq=%s", m, other, k, seq)
+			}
+			seen[seq] = k
+		}
+	}
+	return ""
 }
